@@ -150,9 +150,24 @@ def string_reference(r, limit, p, utf8_ok):
     return ("ok", tuple(("byte", O + i) for i in range(p)), None, O + 4 * consumed, None if limit is None else limit - consumed)
 
 
-def string_cases():
-    for r in range(0, RMAX + 1):
-        for limit in [None] + list(range(0, LMAX + 1)) + HUGE:
+def scope(ctx):
+    """(largest number of bytes left, largest small limit): at least RMAX / LMAX, more if the decoder code counts further"""
+    if ctx is None:
+        return RMAX, LMAX
+    from ..tree import small_literals
+    k = 0
+    for name in ("string", "words", "word", "bit64"):
+        try:
+            k = max([k] + list(small_literals(ctx.rspirv.fn(DEC, name, "Decoder")["body"]) - {4}))
+        except Anchor:
+            pass
+    return max(RMAX, 4 * (k + 1) + 1), max(LMAX, k + 1)
+
+
+def string_cases(ctx=None):
+    rmax, lmax = scope(ctx)
+    for r in range(0, rmax + 1):
+        for limit in [None] + list(range(0, lmax + 1)) + HUGE:
             for p in [None] + list(range(r)):
                 for u in ((True, False) if p is not None else (True,)):
                     yield r, limit, p, u
@@ -216,8 +231,9 @@ def hand_states(ctx, mname):
     def build():
         res = []
         for nw in ([HAND[mname]] if HAND[mname] is not None else [0, 1, 2, 3, 5]):
-            for r in (range(0, RMAX + 1) if nw < 5 else (16, 19, 20, 23)):
-                for lim in [None] + list(range(0, LMAX + 1)) + HUGE:
+            rmax, lmax = scope(ctx)
+            for r in (range(0, rmax + 1) if nw < 5 else (16, 19, 20, 23)):
+                for lim in [None] + list(range(0, lmax + 1)) + HUGE:
                     inst = "%s(%sbytes left=%d, limit=%s)" % (mname, "n=%d, " % nw if mname == "words" else "", r, lim)
                     out = evaluate(ctx, mname, r, lim, args=[nw] if mname == "words" else [])
                     ref, roff, rlim = word_seq(r, lim, nw)
